@@ -711,11 +711,21 @@ def _iter_unused_names(
     # immediately be deleted.
     # Functions and lambdas defined in scope may run at any later time, so the names they read
     # cannot be undefined by looking at what follows an assignment.
+    # A generator expression evaluates the iterable of its first for clause at once, and
+    # everything else when it is consumed.
     deferred_reads = collections.defaultdict(set)
-    for funcdef in core.walk(scope, (ast.FunctionDef, ast.AsyncFunctionDef, ast.Lambda)):
+    for funcdef in core.walk(
+        scope, (ast.FunctionDef, ast.AsyncFunctionDef, ast.Lambda, ast.GeneratorExp)
+    ):
         if funcdef is not scope:
+            immediate_reads = (
+                set(ast.walk(funcdef.generators[0].iter))
+                if isinstance(funcdef, ast.GeneratorExp)
+                else set()
+            )
             for name in core.walk(funcdef, ast.Name(ctx=ast.Load)):
-                deferred_reads[name.id].add(funcdef)
+                if name not in immediate_reads:
+                    deferred_reads[name.id].add(funcdef)
 
     names_in_scope = {name.id for name in core.walk(scope, ast.Name)}
     # A nonlocal statement needs a binding of the name in the enclosing function, and the
@@ -816,8 +826,15 @@ def _iter_unused_names(
                         # may be that (name) is defined and then used in node (i). But definitions
                         # of (name) that (node) considers unused are still surely unused.
                         functions_in_node = set(
-                            core.walk(node, (ast.FunctionDef, ast.AsyncFunctionDef, ast.Lambda))
-                        )
+                            core.walk(
+                                node,
+                                (
+                                    ast.FunctionDef,
+                                    ast.AsyncFunctionDef,
+                                    ast.Lambda,
+                                    ast.GeneratorExp,
+                                ),
+                        ))
                         read_elsewhere = {
                             deferred_name
                             for deferred_name, funcdefs in deferred_reads.items()
